@@ -245,6 +245,8 @@ def run(ck):
         X = xr.make_X('random', n, d, nr); Xv = xr.make_X('random', 30, d, nr)
         if task == 'class_int':
             y = xr.make_y('class', X, nr); yv = xr.make_y('class', Xv, nr); metric = ['brier', 'accuracy'][i % 2]
+            if (i // 4) % 2 == 1:
+                y = y + 1; yv = yv + 1            # class ids 1..K (the smallest id is not 0)
         elif task == 'class_onehot':
             K = [2, 3][i % 2]
             y = np.eye(K, dtype=np.float32)[xr.make_y('class', X, nr, n_classes=K)]; yv = np.eye(K, dtype=np.float32)[xr.make_y('class', Xv, nr, n_classes=K)]
